@@ -183,6 +183,7 @@ def cases(tier, seed):
             out.append((f"x0:n{n}m{m}", case_gmres, dict(n=n, max_iters=m, x0mode="sym")))
             out.append((f"two:n{n}m{m}", case_gmres, dict(n=n, max_iters=m, cols="two")))
             out.append((f"inv:n{n}m{m}", case_gmres, dict(n=n, max_iters=m, via="inv")))
+            out.append((f"inv-x0:n{n}m{m}", case_gmres, dict(n=n, max_iters=m, via="inv", x0mode="sym")))
             out.append((f"complex:n{n}m{m}", case_gmres, dict(n=n, max_iters=m, complex_=True)))
         out.append((f"two-x0:n{n}", case_gmres, dict(n=n, max_iters=n, cols="two", x0mode="sym")))
         out.append((f"symtol:n{n}", case_gmres, dict(n=n, max_iters=n, tol="sym")))
